@@ -42,6 +42,8 @@ pub struct SendError { _e: u8 }
 impl<const N: usize> Sender<(BytesMut, Address, SocketAddr, udp__Session<N>)> {
     #[verifier::external_body]
     fn send(&self, v: (BytesMut, Address, SocketAddr, udp__Session<N>), Tracked(vlog): Tracked<&mut AssocLog>) -> (r: Result<(), SendError>)
+        // channel invariant (guaranteed here by every sender, relied upon by the receiver in startup_udp): a reply is labelled with a socket address
+        requires v.1 is Socket,
         ensures final(vlog).from_client == old(vlog).from_client, final(vlog).from_target == old(vlog).from_target, final(vlog).to_target == old(vlog).to_target,
             final(vlog).to_client == old(vlog).to_client.push((v.0@, v.1, v.2, sess_rec(v.3))),
     { unimplemented!() }
@@ -114,6 +116,120 @@ proof fn lemma_assoc_accepted_push(m: Seq<(Seq<u8>, Address, SessRec)>, rs: Seq<
     assert(rs.push(r).drop_last() =~= rs);
 }
 
+/// tokio task handle / timer / channel constructors / UDP bind, the association table (lru_time_cache) - TRUSTED, as startup_udp uses them
+#[verifier::external_body]
+#[verifier::accept_recursive_types(T)]
+pub struct JoinHandle<T> { _t: core::marker::PhantomData<T> }
+impl<T> JoinHandle<T> {
+    #[verifier::external_body]
+    fn is_finished(&self) -> (r: bool) { unimplemented!() }
+}
+pub mod mpsc {
+    use vstd::prelude::*;
+    use super::*;
+    pub mod error { pub struct SendError<T> { pub v: T } }
+    #[verifier::external_body]
+    pub fn channel<T>(n: usize) -> (r: (Sender<T>, Receiver<T>)) { unimplemented!() }
+}
+impl<T> Clone for Sender<T> {
+    #[verifier::external_body]
+    fn clone(&self) -> (r: Self) { unimplemented!() }
+}
+impl<const N: usize> Sender<(BytesMut, Address, udp__Session<N>)> {
+    /// hands a client datagram to the association's task
+    #[verifier::external_body]
+    fn send(&self, v: (BytesMut, Address, udp__Session<N>), Tracked(vlog): Tracked<&mut AssocLog>) -> (r: Result<(), mpsc::error::SendError<(BytesMut, Address, udp__Session<N>)>>)
+        ensures *final(vlog) == *old(vlog),
+    { unimplemented!() }
+}
+impl<const N: usize> Receiver<(BytesMut, Address, SocketAddr, udp__Session<N>)> {
+    #[verifier::external_body]
+    fn recv(&mut self, Tracked(vlog): Tracked<&mut AssocLog>) -> (r: Option<(BytesMut, Address, SocketAddr, udp__Session<N>)>)
+        ensures *final(vlog) == *old(vlog), r matches Some(m) ==> m.1 is Socket,
+    { unimplemented!() }
+}
+pub struct Interval { _i: u8 }
+pub mod time {
+    use super::*;
+    #[verifier::external_body]
+    pub fn interval(d: Duration) -> (r: Interval) { unimplemented!() }
+}
+impl Interval {
+    #[verifier::external_body]
+    fn tick(&mut self) { unimplemented!() }
+}
+impl UdpSocket {
+    #[verifier::external_body]
+    fn bind(addr: String) -> (r: Result<UdpSocket, IoError>) { unimplemented!() }
+}
+impl core::convert::From<IoError> for anyhow::Error {
+    #[verifier::external_body]
+    fn from(e: IoError) -> anyhow::Error { unimplemented!() }
+}
+/// lru_time_cache::LruCache as the association table: a finite map; entries may expire (disappear) between any two operations
+impl<V> LruCache<u64, V> {
+    #[verifier::external_body]
+    fn iter(&mut self) ensures forall|k: u64| final(self).m().contains_key(k) ==> old(self).m().contains_key(k) && #[trigger] final(self).m()[k] == old(self).m()[k] { unimplemented!() }
+    #[verifier::external_body]
+    fn get(&mut self, k: &u64) -> (r: Option<&V>)
+        ensures forall|j: u64| final(self).m().contains_key(j) ==> old(self).m().contains_key(j) && #[trigger] final(self).m()[j] == old(self).m()[j],
+            r matches Some(v) ==> final(self).m().contains_key(*k) && final(self).m()[*k] == *v,
+            r is None ==> !final(self).m().contains_key(*k),
+    { unimplemented!() }
+    #[verifier::external_body]
+    fn get_mut(&mut self, k: &u64) -> (r: Option<&V>)
+        ensures forall|j: u64| final(self).m().contains_key(j) ==> old(self).m().contains_key(j) && #[trigger] final(self).m()[j] == old(self).m()[j],
+            r matches Some(v) ==> final(self).m().contains_key(*k) && final(self).m()[*k] == *v,
+            r is None ==> !final(self).m().contains_key(*k),
+    { unimplemented!() }
+    #[verifier::external_body]
+    fn remove(&mut self, k: &u64) -> (r: Option<V>)
+        ensures forall|j: u64| final(self).m().contains_key(j) ==> j != *k && old(self).m().contains_key(j) && #[trigger] final(self).m()[j] == old(self).m()[j],
+    { unimplemented!() }
+    #[verifier::external_body]
+    fn insert(&mut self, k: u64, v: V) -> (r: Option<V>)
+        ensures forall|j: u64| final(self).m().contains_key(j) ==> (j == k && #[trigger] final(self).m()[j] == v) || (j != k && old(self).m().contains_key(j) && final(self).m()[j] == old(self).m()[j]),
+    { unimplemented!() }
+}
+impl<const N: usize> UdpAssociate<N> {
+    /// the client session an association was created for
+    uninterp spec fn sid(&self) -> u64;
+}
+impl<const N: usize> UdpAssociateContext<N> {
+    /// server/shadowsocks.rs UdpAssociateContext::create (async: binds a socket, spawns the relay task): NOT verified; the association it hands back is the one of
+    /// the session it was given (the task starts with a fresh replay window and no user: the preconditions of relay)
+    #[verifier::external_body]
+    fn create(client_session: &udp__Session<N>, client_addr: SocketAddr, inbound: Sender<(BytesMut, Address, SocketAddr, udp__Session<N>)>) -> (r: anyhow::Result<UdpAssociate<N>>)
+        ensures r matches Ok(a) ==> a.sid() == client_session.client_session_id,
+    { unimplemented!() }
+}
+/// server.rs startup_quic (accept loop): NOT verified
+#[verifier::external_body]
+fn startup_quic<const N: usize, F: FnOnce(&ServerContext<N>) -> anyhow::Result<sssrv__PayloadCodec<N>>>(context: ServerContext<N>, config: &ServerConfig<SslConfig>, new_codec: F) -> (r: anyhow::Result<()>)
+{ unimplemented!() }
+/// every entry of the association table serves the session it is filed under
+spec fn table_ok<const N: usize>(t: LruCache<u64, UdpAssociate<N>>) -> bool { forall|k: u64| t.m().contains_key(k) ==> (#[trigger] t.m()[k]).sid() == k }
+
+//@@ octo-squirrel-server/src/server/shadowsocks.rs:172-175  struct UdpAssociate  sha=9a4a81ec24ed2a1c
+struct UdpAssociate<const N: usize> {
+    task: JoinHandle<()>,
+    sender: Sender<(BytesMut, Address, udp__Session<N>)>,
+}
+
+
+//@@ octo-squirrel-server/src/server/shadowsocks.rs:177-181  impl UdpAssociate {fn try_send}  sha=c27fafa573386ec8
+impl<const N: usize> UdpAssociate<N> {
+    fn try_send(&self, msg: (BytesMut, Address, udp__Session<N>), Tracked(vlog): Tracked<&mut AssocLog>) -> (r: Result<(), mpsc::error::SendError<(BytesMut, Address, udp__Session<N>)>>)
+        requires
+            //#C02 C11
+            // a datagram is handed only to the association of its own client session (one session = one task = one replay window)
+            self.sid() == msg.2.client_session_id,
+    {
+        self.sender.send(msg, Tracked(vlog))
+    }
+}
+
+
 //@@ octo-squirrel-server/src/server/shadowsocks.rs:190-199  struct UdpAssociateContext  sha=78838acd7ad7e4db
 struct UdpAssociateContext<const N: usize> {
     client_session_id: u64,
@@ -125,6 +241,131 @@ struct UdpAssociateContext<const N: usize> {
     server_packet_id: u64,
     user: Option<Arc<ServerUser<N>>>,
 }
+
+//@@ octo-squirrel-server/src/server/shadowsocks.rs:304-306  mod udp / fn new_codec  sha=310cf0e86d70ac1a
+fn new_codec<'a, const N: usize>(config: &ServerConfig<SslConfig>, context: udp__Context<'a, N>) -> (r: anyhow::Result<udp__SessionCodec<'a, N>>)
+    ensures
+        //#C16
+        r matches Ok(c) && c.context == context && c.cipher.kind == config.cipher,
+{
+        Ok(udp__SessionCodec::<'a, N>::new(context, udp__AEADCipherCodec::new(config.cipher)))
+    }
+
+
+//@@ octo-squirrel-server/src/server/shadowsocks.rs:396-400  mod tcp / impl From for PayloadCodec  sha=2594280010b53db2
+impl<const N: usize> From<&ServerContext<N>> for sssrv__PayloadCodec<N> {
+        fn from(value: &ServerContext<N>) -> Self {
+            Self::new(value.0.clone(), Mode::Server, None)
+        }
+    }
+
+
+/// (no specification is claimed for this conversion)
+impl<const N: usize> vstd::std_specs::convert::FromSpecImpl<&ServerContext<N>> for sssrv__PayloadCodec<N> {
+    open spec fn obeys_from_spec() -> bool { false }
+    open spec fn from_spec(v: &ServerContext<N>) -> Self { arbitrary() }
+}
+
+//@@ octo-squirrel-server/src/server/shadowsocks.rs:84-170  fn startup_udp  sha=eea43b948751bef5
+// termination is not claimed: the service runs until its channel closes
+#[verifier::exec_allows_no_decreases_clause]
+fn startup_udp<const N: usize>(config: &ServerConfig<SslConfig>, user_manager: &Arc<ServerUserManager<N>>, Tracked(vlog): Tracked<&mut AssocLog>) -> (r: anyhow::Result<()>)
+    requires 16 <= N <= 32, !(config.cipher is Unknown), N == key_len_of(config.cipher),
+{
+    if !config.mode.enable_udp() && !config.mode.enable_quic() {
+        return Ok(());
+    }
+    if config.mode.enable_udp() {
+        let (key, identity_keys) = if config.cipher.is_aead_2022() {
+            ss22k__password_to_keys(&config.password).map_err(|e| verif_err())?
+        } else {
+            (ssaeadk__openssl_bytes_to_key(config.password.as_bytes()), Vec::with_capacity(0))
+        };
+        proof {
+            //#C16
+            // the UDP service derives its key exactly as the TCP service does: base64 key list for 2022-blake3-*, EVP_BytesToKey of the password otherwise
+            assert(cred_ok(config.cipher, sbytes(config.password), N as int, key@, arrs(identity_keys@)));
+        }
+        let context = udp__Context::new(Mode::Server, Some(user_manager.clone()), &key, &identity_keys);
+        let codec = new_codec::<N>(config, context)?;
+        let inbound = UdpSocket::bind(verif_string())?;
+        let (tx, mut rx) = mpsc::channel::<(BytesMut, Address, SocketAddr, udp__Session<N>)>(1024);
+        let ttl = Duration::from_secs(300);
+        let mut net_map: LruCache<u64, UdpAssociate<N>> = LruCache::with_expiry_duration_and_capacity(ttl, 10240);
+        let mut cleanup_timer = time::interval(ttl);
+        /*R2*/
+        let mut buf = [0; 0x10000];
+        loop
+            invariant table_ok(net_map), codec.wf(), codec.context.stream_type is Server,
+        {
+            match verif_select(3) {
+                0 => { let _ = cleanup_timer.tick(); {
+                    net_map.iter();
+                } }
+                // p_s_c
+                1 => { let peer_msg = rx.recv(Tracked(vlog)); {
+                    if let Some((content, peer_addr, client_addr, session)) = peer_msg {
+                        net_map.get(&session.client_session_id); // keep alive
+                        let mut dst = BytesMut::new();
+                        if let Err(e) = udp__SessionCodec::encode(&codec, (content, peer_addr, session), &mut dst) {
+                            ()
+                        } else {
+                            inbound.send_to(&dst, client_addr, Tracked(vlog))?;
+                        }
+                    } else {
+                        /*R2*/
+                        break;
+                    }
+                } }
+                // c_s_p
+                _ => { let client_msg = inbound.recv_from(&mut buf, Tracked(vlog)); {
+                    match client_msg {
+                        Ok((len, client_addr)) => {
+                            let mut src = BytesMut::from(&buf[..len]);
+                            match udp__SessionCodec::<N>::decode(&codec, &mut src) {
+                                Ok(Some((content, peer_addr, session))) => {
+                                    let key = session.client_session_id;
+                                    // an association whose task has ended (unresolvable or unreachable target) is replaced, never fatal for the service
+                                    if net_map.get(&key).is_some_and(|assoc| assoc.task.is_finished()) {
+                                        net_map.remove(&key);
+                                    }
+                                    if let Some(assoc) = net_map.get_mut(&key) {
+                                        if let Err(e) = assoc.try_send((content, peer_addr, session), Tracked(vlog)) {
+                                            /*R2*/
+                                            net_map.remove(&key);
+                                        }
+                                    } else {
+                                        match UdpAssociateContext::create(&session, client_addr, tx.clone()) {
+                                            Ok(assoc) => {
+                                                if let Err(e) = assoc.try_send((content, peer_addr, session), Tracked(vlog)) {
+                                                    /*R2*/
+                                                } else {
+                                                    net_map.insert(key, assoc);
+                                                }
+                                            }
+                                            Err(e) => (),
+                                        }
+                                    }
+                                }
+                                Ok(None) => {}
+                                Err(e) => (),
+                            }
+                        }
+                        Err(e) => {
+                            /*R2*/
+                        }
+                    }
+                } }
+            }
+        }
+        /*R2*/
+        Ok(())
+    } else {
+        let context: ServerContext<N> = ServerContext::init(config, user_manager.clone())?;
+        startup_quic(context, config, |c| Ok(sssrv__PayloadCodec::from(c)))
+    }
+}
+
 
 //@@ octo-squirrel-server/src/server/shadowsocks.rs:201-291  impl UdpAssociateContext {fn relay,fn validate_packet_id}  sha=9b98a3caaec76dc1
 impl<const N: usize> UdpAssociateContext<N> {
